@@ -152,6 +152,7 @@ func (s *Session) String() string {
 //  4. If bad cmd, respond error
 //  5. Goto 2
 func (s *Server) startSession(id int, conn net.Conn, logger zerolog.Logger) {
+	verifSessionSpawned()
 	s.wg.Add(1)
 	s.runSession(id, conn, logger)
 }
